@@ -105,9 +105,7 @@ theorem useOrOwn_mild {w : WTypes} {st st' : St} {owner : Owner} {name : Str} {r
     · exact Mild.refl _
   · split at h
     · cases h; exact Mild.refl _
-    · split at h
-      · cases h; exact Mild.refl _
-      · cases h; exact Mild.ofOwners _ _
+    · cases h; exact Mild.ofOwners _ _
 
 theorem clearSelfOwner_mild (st : St) (id : Nat) (exp : ItemKind) : Mild st (clearSelfOwner st id exp) := by
   unfold clearSelfOwner
